@@ -17,14 +17,15 @@ enum { F_NONE };
 static const char *const fault_names[] = { NULL };
 enum { P_REMOVE_ONLY, P_REMOVE_LAST, P_TAIL_AFTER_REMOVE, P_HEAD_AFTER_REMOVE, P_SORTED_TIE,
        P_ITER_PAST_END, P_ITER_INSERT_END, P_ITER_REMOVE_TAIL, P_REUSE_OTHER_LIST,
-       P_EXTRACT_EMPTY, P_SORTED_MIDDLE };
+       P_EXTRACT_EMPTY, P_SORTED_MIDDLE, P_BIG_LIST, P_NULL_NODE };
 static const char *const probe_names[] = {
 	"removed_only_node", "removed_last_node", "tail_insert_after_removal",
 	"head_insert_after_removal", "sorted_insert_with_tie", "iterator_next_past_end",
 	"iterator_insert_at_end", "iterator_remove_of_tail", "node_reused_in_other_list",
-	"extract_from_empty", "sorted_insert_in_middle", NULL };
+	"extract_from_empty", "sorted_insert_in_middle", "list_of_more_than_1000_nodes",
+	"null_node_argument", NULL };
 
-#define NNODES 8
+#define MAXNODES 2400
 #define NLISTS 3
 #define NITERS 3
 
@@ -34,14 +35,16 @@ typedef struct {
 	int id;
 } tnode_t;
 
-static tnode_t *node[NNODES];
+static tnode_t *node[MAXNODES];
+static int NNODES;			/* 8, or (one run in 150) a pool of more than a thousand nodes */
+static bool big;
 static list_t *lists;
 static list_iterator_t *iters;
 
 /* model */
 static int mlen[NLISTS];
-static int mseq[NLISTS][NNODES];
-static int member_of[NNODES];		/* list index or -1 */
+static int mseq[NLISTS][MAXNODES];
+static int member_of[MAXNODES];		/* list index or -1 */
 static struct { int list; int idx; bool valid; } mit[NITERS];
 static bool just_removed[NLISTS];	/* last mutation of the list was a removal */
 
@@ -50,7 +53,13 @@ static int id_of(list_node_t *n)
 	if (!n)
 		return -1;
 	tnode_t *t = containerof(n, tnode_t, link);
-	for (int i = 0; i < NNODES; i++)
+	if (big) {
+		/* every node is its own exact-size heap block: a stray pointer is a sanitizer report */
+		int i = t->id;
+		if (i >= 0 && i < NNODES && node[i] == t)
+			return i;
+	}
+	for (int i = 0; i < NNODES && !big; i++)
 		if (node[i] == t)
 			return i;
 	sim_fail(NULL, "BAD_POINTER", "the list returned a pointer that is not one of the nodes");
@@ -63,8 +72,7 @@ static int keycmp(list_node_t *a, list_node_t *b)
 
 static void m_insert_at(int l, int idx, int id)
 {
-	for (int i = mlen[l]; i > idx; i--)
-		mseq[l][i] = mseq[l][i - 1];
+	memmove(&mseq[l][idx + 1], &mseq[l][idx], sizeof(int) * (mlen[l] - idx));
 	mseq[l][idx] = id;
 	mlen[l]++;
 	member_of[id] = l;
@@ -73,8 +81,7 @@ static void m_insert_at(int l, int idx, int id)
 static int m_remove_at(int l, int idx)
 {
 	int id = mseq[l][idx];
-	for (int i = idx; i + 1 < mlen[l]; i++)
-		mseq[l][i] = mseq[l][i + 1];
+	memmove(&mseq[l][idx], &mseq[l][idx + 1], sizeof(int) * (mlen[l] - idx - 1));
 	mlen[l]--;
 	member_of[id] = -1;
 	return id;
@@ -108,7 +115,7 @@ static void verify_all(const char *after)
 	for (int l = 0; l < NLISTS; l++) {
 		list_iterator_t it;
 		int n = 0;
-		sim_budget(200000);
+		sim_budget(big ? 4000000 : 200000);
 		for (list_node_t *c = list_iterate(&lists[l], &it); c; c = list_iterator_next(&it)) {
 			if (n >= mlen[l] + 2 || n > 2 * NNODES)
 				sim_fail(NULL, "TRAVERSAL", "after %s: list %d yields more than %d nodes (cycle or stray node)",
@@ -143,7 +150,22 @@ static int pick_free(void)
 	return -1;
 }
 
-static int last_list_of[NNODES];
+static int last_list_of[MAXNODES];
+
+/* the node an operation names: any node of the pool; in a big pool usually one picked by its
+ * position in the list (around index 1024 and at both ends), else positions that deep are never named */
+static int pick_any(int l)
+{
+	if (big && mlen[l] && sim_choose(4)) {
+		static const int at[] = { 1023, 1024, 1025, 1026, 2047, 2048 };
+		uint32_t k = sim_choose(9);
+		int idx = k < 6 ? at[k] : k == 6 ? mlen[l] - 1 : k == 7 ? 0 : (int)sim_choose(mlen[l]);
+		if (idx >= mlen[l])
+			idx = mlen[l] - 1;
+		return mseq[l][idx];
+	}
+	return sim_choose(NNODES);
+}
 
 static void note_insert(int l, int id, bool tail, bool head)
 {
@@ -167,13 +189,15 @@ static void note_remove(int l, int idx_removed, int len_before)
 }
 
 enum { O_INSERT, O_PUSH, O_SORTED, O_EXTRACT, O_REMOVE, O_CONTAINS, O_CONTAINS_IT, O_ITERATE,
-       O_NEXT, O_IT_INSERT, O_IT_REMOVE, O_NOPS };
+       O_NEXT, O_IT_INSERT, O_IT_REMOVE, O_NULL, O_NOPS };
 static const char *const opname[] = { "insert", "push", "insert_sorted", "extract", "remove",
 				      "contains", "contains_iter", "iterate", "iter_next",
-				      "iter_insert", "iter_remove" };
+				      "iter_insert", "iter_remove", "null_node" };
 
 static void run(void)
 {
+	big = sim_chance(1, 150);
+	NNODES = big ? 1030 + sim_choose(MAXNODES - 1030) : 8;
 	for (int i = 0; i < NNODES; i++) {
 		node[i] = sim_alloc(sizeof(tnode_t));
 		node[i]->id = i;
@@ -190,6 +214,26 @@ static void run(void)
 	uint32_t nlists = 1 + sim_choose(NLISTS);
 	bool sorted_only = sim_chance(1, 5);	/* a run that keeps list 0 sorted throughout */
 	sim_ev("hdr", nops, nlists, sorted_only);
+	if (big) {
+		/* a long list to start from: lengths around 1024 and the whole pool */
+		static const int fills[] = { 1023, 1024, 1025, 1026, 1500 };
+		uint32_t k = sim_choose(7);
+		int fill = k < 5 ? fills[k] : k == 5 ? NNODES - 1 : NNODES - 9;
+		bool pushes = sim_choose(2);
+		sim_probe(P_BIG_LIST);
+		for (int i = 0; i < fill && i < NNODES; i++) {
+			node[i]->key = sorted_only ? (pushes ? (fill - i) / 700 : i / 700) : 0;
+			if (pushes) {
+				list_push(&lists[0], &node[i]->link);
+				m_insert_at(0, 0, i);
+			} else {
+				list_insert(&lists[0], &node[i]->link);
+				m_insert_at(0, mlen[0], i);
+			}
+			last_list_of[i] = 0;
+		}
+		verify_all("prefill");
+	}
 
 	for (uint32_t step = 0; step < nops && !sim_tape_done(); step++) {
 		sim_seg();
@@ -200,7 +244,7 @@ static void run(void)
 		bool b;
 		if (sorted_only && l == 0 && (op == O_INSERT || op == O_PUSH || op == O_IT_INSERT))
 			op = O_SORTED;
-		sim_budget(200000);
+		sim_budget(big ? 4000000 : 200000);
 		switch (op) {
 		case O_INSERT:
 			if ((id = pick_free()) < 0)
@@ -251,7 +295,7 @@ static void run(void)
 			sim_ev("extract", l, got, 0);
 			break;
 		case O_REMOVE:
-			id = sim_choose(NNODES);
+			id = pick_any(l);
 			b = list_remove(&lists[l], &node[id]->link);
 			idx = m_find(l, id);
 			if (b != (idx >= 0))
@@ -265,7 +309,7 @@ static void run(void)
 			break;
 		contains:
 		case O_CONTAINS:
-			id = sim_choose(NNODES);
+			id = pick_any(l);
 			b = list_contains(&lists[l], &node[id]->link, NULL);
 			if (b != (m_find(l, id) >= 0))
 				sim_fail(NULL, "RETVAL", "list_contains(list %d, node %d) returned %d", l, id, b);
@@ -273,7 +317,7 @@ static void run(void)
 			op = O_CONTAINS;
 			break;
 		case O_CONTAINS_IT:
-			id = sim_choose(NNODES);
+			id = pick_any(l);
 			b = list_contains(&lists[l], &node[id]->link, &iters[itn]);
 			idx = m_find(l, id);
 			if (b != (idx >= 0))
@@ -337,6 +381,27 @@ static void run(void)
 			invalidate(l, itn);
 			sim_ev("it_remove", l, itn, got);
 			break;
+		case O_NULL:
+			/* no sequence contains "no node": not found, the iterator ends up past the end, nothing changes */
+			sim_probe(P_NULL_NODE);
+			switch (sim_choose(3)) {
+			case 0:
+				b = list_contains(&lists[l], NULL, NULL);
+				break;
+			case 1:
+				b = list_contains(&lists[l], NULL, &iters[itn]);
+				mit[itn].list = l;
+				mit[itn].idx = mlen[l];
+				mit[itn].valid = true;
+				break;
+			default:
+				b = list_remove(&lists[l], NULL);
+				break;
+			}
+			if (b)
+				sim_fail(NULL, "RETVAL", "list_contains / list_remove of a NULL node on list %d (length %d) reported success", l, mlen[l]);
+			sim_ev("null", l, itn, b);
+			break;
 		}
 		sim_ops(1);
 		verify_all(opname[op]);
@@ -350,8 +415,9 @@ const sim_harness_t sim_harness = {
 	.fault_names = fault_names,
 	.probe_names = probe_names,
 	.min_ops = 4,
-	.rule = "one case = one generated history of 1-40 list operations over 8 nodes, 1-3 lists and 3 "
-		"iterators, checked against a vector model after every operation (full traversal of "
+	.rule = "one case = one generated history of 1-40 list operations over 8 nodes (one run in 150: "
+		"1030-2400 nodes with a list prefilled to around 1024 or the whole pool and nodes named by "
+		"their position), 1-3 lists and 3 iterators, including NULL node arguments, checked against a vector model after every operation (full traversal of "
 		"every list, every return value, cleared links); no fault dimension exists for this "
 		"property; non-trivial = at least 4 operations and at least one of the boundary shapes "
 		"the property singles out (probe) occurred; distinct = distinct hash of the operation/"
